@@ -268,6 +268,26 @@ impl Scenario for C13 {
         }
     }
 
+    /// Entry points of the gateway that this check does not know (a helper exported by accident,
+    /// or a genuinely new function): each is called without any authorisation, with arguments built
+    /// from its parameter types; whatever it is meant to do, it must not announce a call.
+    fn probe(&self, ctx: &Ctx, _m: &u8, out: &mut StepOut) {
+        let w = &ctx.w;
+        let env = &w.env;
+        let addresses = [ctx.p[0].clone(), ctx.gw.clone(), ctx.caller.clone()];
+        let targets: [(&Address, &str, &[&str]); 1] = [(&ctx.gw, "/repo/contracts/axelar-gateway/src", &axmc::inventory::GATEWAY_KNOWN)];
+        for (contract, func, args) in axmc::inventory::unknown_calls(w, "C13", &targets, &addresses, 64) {
+            let snap = w.snap();
+            let call = w.call(&contract, &func, &args, Auth::Nobody);
+            let announced = call.events.iter().filter(|e| e.name() == "contract_called").count();
+            out.expect(!(call.ok && announced > 0), "unknown-entry-point.announced-unauthorised", || {
+                format!("gateway function `{}` (not among the known entry points), called with nobody's authorisation, emitted {} contract_called event(s): {:?}", func, announced, call.events.first())
+            });
+            w.restore(&snap);
+        }
+        let _ = env;
+    }
+
     fn must_succeed_kinds(&self) -> Vec<&'static str> {
         vec!["principal", "contract-caller", "account"]
     }
@@ -277,7 +297,7 @@ fn main() {
     main_for(|tier| {
         let mut o = Opts::new(tier, 1);
         o.level = "exploration";
-        o.rule = "exhaustive grid from 5 gateway states (fresh, with approvals, after a rotation, after three rotations with retention 1, inside the rotation-delay window after a bypass rotation): sender/authorisation in {principal signing; another principal signing; nobody; principal signing a different call; both signing; contract naming itself as caller; contract naming another address; account-type address authorised / unauthorised; unauthorised direct calls naming the gateway itself, another contract, the gateway's owner} x destination chain {empty, lower-case ASCII, 300 chars, multi-byte, mixed case with surrounding blanks} x destination address {hex, empty, non-ASCII} x payload length {0,1,31,32,33,135,136,137,272,4096,40960,65536,65537,200000} (Keccak rate boundaries; thorough: every length 0..=410 and 16 KiB / 16 KiB+1 / 64 KiB / 64 KiB+1 / 128 KiB / 128 KiB+1 / 1,000,000 for the ASCII destination); one case is non-trivial and distinct when its (base state, sender mode, strings, payload) tuple differs".into();
+        o.rule = "exhaustive grid from 5 gateway states (fresh, with approvals, after a rotation, after three rotations with retention 1, inside the rotation-delay window after a bypass rotation): sender/authorisation in {principal signing; another principal signing; nobody; principal signing a different call; both signing; contract naming itself as caller; contract naming another address; account-type address authorised / unauthorised; unauthorised direct calls naming the gateway itself, another contract, the gateway's owner} x destination chain {empty, lower-case ASCII, 300 chars, multi-byte, mixed case with surrounding blanks} x destination address {hex, empty, non-ASCII} x payload length {0,1,31,32,33,135,136,137,272,4096,40960,65536,65537,200000} (Keccak rate boundaries; thorough: every length 0..=410 and 16 KiB / 16 KiB+1 / 64 KiB / 64 KiB+1 / 128 KiB / 128 KiB+1 / 1,000,000 for the ASCII destination); in every base state every gateway entry point found in the source tree that is not in the check's inventory is called unauthorised with arguments built from its parameter types and must not announce a call; one case is non-trivial and distinct when its (base state, sender mode, strings, payload) tuple differs".into();
         (C13 { thorough: tier == "thorough" }, o)
     });
 }
